@@ -771,7 +771,8 @@ class UnitVectorDescriptor(BasicDescriptor):
                 'The value is set to None, which may be against the standard.'.format(
                     self.name))
             self.data[instance] = None
-        elif the_norm == 1:
+        elif abs(the_norm - 1.0) <= 1e-14:
+            # already a unit vector up to rounding: keep it bit for bit (normalising again would not be idempotent)
             self.data[instance] = vec
         else:
             self.data[instance] = self.the_type.from_array(coords/the_norm)
